@@ -53,7 +53,9 @@ func (e *c10Encoder) PrintLeadingContent(_ io.Writer, content string) error {
 }
 func (e *c10Encoder) CanHandleAliases() bool { return true }
 
-var c10Exprs = []string{".", ".[]", "select(.[0] == 7770003)", ".[] | select(. == 7770003)", "[document_index, file_index, filename]", "length", "sort", ".[0]"}
+var c10Exprs = []string{".", ".[]", "select(.[0] == 7770003)", ".[] | select(. == 7770003)", "[document_index, file_index, filename]", "length", "sort", ".[0]",
+	// values built below the document root still belong to their document and file
+	".[] | {\"v\": .}", "{\"first\": .[0]}", ".[] | {\"v\": .} | .v"}
 
 // c10MakeDoc: a sequence of 0..2 symbolic digits.
 func c10MakeDoc(name string) ([]string, *CandidateNode) {
@@ -352,3 +354,34 @@ func VerifC10SecondFile() {
 	verifAssert(count == 2, "C10/second-input-file-skipped format="+formats[fi])
 	verifCover("C10/second-file/end")
 }
+
+// VerifC10Origin: document_index, file_index and filename asked of what an expression yields — elements, values built
+// below the root, values bound to variables, entries — name the document and file the value came from. Document
+// number, file number and the expression are chosen per path; only the values are compared (no printer involved).
+func VerifC10Origin() {
+	exprs := []string{".", ".[]", ".[] | {\"v\": .}", "{\"first\": .[0]}", ".[0] as $x | {\"k\": $x}", ".[] | {\"v\": .} | .v", "{\"a\": {\"b\": .[0]}} | .a",
+		".[] | select(. == 1)", ".[1:] | .[]", "{\"m\": .} | .m[]", "map({\"v\": .}) | .[]", ".[] | {\"v\": .} | select(.v == 1)", "{\"a\": .[0]} * {\"b\": .[1]}", "{\"a\": .[0]} + {\"b\": .[1]}",
+		"keys", "keys | .[]", "to_entries", "to_entries | .[]", "[.[0]]", "[.[]] | .[]", "length", "reverse", "reverse | .[]", "sort | .[0]", "unique", "flatten", ". + [5]", ". + [5] | .[]", ". - [1]",
+		"map(. + 1)", "map(. + 1) | .[]", "{\"m\": .} | to_entries | .[] | .value", "with_entries(.)", "{\"a\": 1} | keys", "any", ".[0] + 1", ".[0] == 1", ".[0] // 5", "[.[] | select(. == 1)]",
+		"group_by(.) | .[]", "(.[0] | tostring)", "path", ".[0] | path", "{\"a\": .[0]} | pick([\"a\"])", "{\"a\": .[0]} | omit([\"b\"])", "{\"a\": .[0]} | to_entries | from_entries"}
+	which := verifChoice("expr", len(exprs))
+	d, f := verifChoice("doc", 3), verifChoice("file", 3)
+	names := []string{"f0.yml", "dir/f1.yml", "f2.yaml"}
+	node := c10Rebuild([]string{"1", verifStrN("e", 1, "02")})
+	node.document, node.fileIndex, node.filename = uint(d), f, names[f]
+	res, err := vEval(vParse(exprs[which]+" | [document_index, file_index, filename]"), node)
+	label := "expr=" + exprs[which]
+	verifAssert(err == nil, "C10/origin-error "+label)
+	if err != nil {
+		return
+	}
+	want := "[<!!int " + verifItoa(int64(d)) + ">, <!!int " + verifItoa(int64(f)) + ">, <!!str " + names[f] + ">]"
+	for _, r := range vNodes(res) {
+		verifAssert(vDump(r) == want, "C10/value-reports-another-origin "+label)
+	}
+	if res.Len() > 0 {
+		verifCover("C10/origin/some")
+	}
+	verifCover("C10/origin/end")
+}
+
